@@ -222,7 +222,7 @@ func (e *Exec) invokeFn(st *State, fr *Frame, fn *ssa.Function, args []Val, bind
 	}
 	pp := pkgPathOf(fn)
 	inModule := strings.HasPrefix(pp, modulePath)
-	if fn.Blocks != nil && (fn.Synthetic != "" || inModule || inlineStdlib[pp] || fn.Parent() != nil) {
+	if fn.Blocks != nil && (fn.Synthetic != "" || inModule || inlineStdlib[pp] || fn.Parent() != nil || e.expands(fn)) {
 		if fn.Synthetic == "" {
 			e.Inlined[fnDisplay(fn)] = true
 		}
